@@ -50,6 +50,7 @@ type c20Gen struct {
 	rng   *rand.Rand
 	feat  map[string]bool
 	tricky bool // allow the default spellings listed as known finding patterns
+	qual   bool // the table name is schema-qualified (findings are not combined: F33 shapes only on unqualified tables)
 }
 
 func (g *c20Gen) f(s string) { g.feat[s] = true }
@@ -303,7 +304,18 @@ func c20GenSpec(rng *rand.Rand, tricky bool) c20Spec {
 	g := &c20Gen{rng: rng, feat: map[string]bool{}, tricky: tricky}
 	sp := c20Spec{Table: "gen_items", Rows: 2 + rng.Intn(3)}
 	idPK := false
-	switch rng.Intn(8) {
+	hasGModel := false
+	qual := rng.Intn(4) == 0 // schema-qualified table name (c20_cols.go)
+	if qual {
+		g.qual = true
+		sp.Qual = "main"
+		g.f("table:qualified-main")
+	}
+	switch rng.Intn(9) {
+	case 8:
+		sp.V1 = append(sp.V1, c20Field{Name: "Model", Kind: "gmodel", Anon: true})
+		hasGModel = true
+		g.f("pk:gorm.Model")
 	case 0, 1, 2:
 		sp.V1 = append(sp.V1, c20Field{Name: "ID", Kind: "uint"})
 		idPK = true
@@ -330,14 +342,36 @@ func c20GenSpec(rng *rand.Rand, tricky bool) c20Spec {
 		sp.V1 = append(sp.V1, g.scalarField(fmt.Sprintf("F%c", 'A'+i), false, "v1"))
 	}
 	have := map[string]bool{}
+	// several struct fields -> one column (c20_cols.go)
+	if rng.Intn(4) == 0 || (hasGModel && rng.Intn(2) == 0) {
+		sp.V1 = append(sp.V1, g.collide("v1", hasGModel, have)...)
+	}
+	if tricky && rng.Intn(3) == 0 { // F34: numeric kind + type tag with a digit group
+		k := g.pick("int", "int64", "float64", "uint")
+		t := map[string]string{"int": "type:int(11)", "int64": "type:bigint(20)", "float64": "type:decimal(10,2)", "uint": "type:int(10)"}[k]
+		sp.V1 = append(sp.V1, c20Field{Name: "FN", Kind: k, Tag: t})
+		g.f("v1:type-digit-group")
+	}
+	// (a foreign key INTO a qualified table cannot be written in SQLite: no has-one / has-many / many2many on a qualified hub)
+	idPK = idPK && !qual
 	for rng.Intn(3) == 0 {
 		sp.V1 = append(sp.V1, g.relation("v1", have, idPK)...)
 	}
 	// ---- v2 = v1 + additions
+	// (tags are only ever added to fields that OWN their column: a tag on a field that lost its column is either ignored or
+	// lands on the owner's column through ParseIndexes — a change of the owner's declaration, not an addition; c20_cols.go)
+	lost := c20Losers(sp.V1)
 	sp.V2 = append([]c20Field(nil), sp.V1...)
 	adds := 1 + rng.Intn(3)
 	for a := 0; a < adds; a++ {
-		switch rng.Intn(9) {
+		switch rng.Intn(10) {
+		case 9: // a shadowed PAIR added together: embedded struct + own field over one of its columns
+			if pair := g.addedPair(have); pair != nil {
+				sp.V2 = append(sp.V2, pair...)
+			} else {
+				sp.V2 = append(sp.V2, g.scalarField(fmt.Sprintf("N%c", 'A'+a), true, "v2add"))
+				g.f("v2:add-field")
+			}
 		case 0, 1:
 			sp.V2 = append(sp.V2, g.scalarField(fmt.Sprintf("N%c", 'A'+a), true, "v2add"))
 			g.f("v2:add-field")
@@ -345,7 +379,7 @@ func c20GenSpec(rng *rand.Rand, tricky bool) c20Spec {
 			for tries := 0; tries < 6; tries++ {
 				i := rng.Intn(len(sp.V1))
 				f := sp.V2[i]
-				if c20IsRel(f.Kind) || f.Kind == "audit" || f.Kind == "stamp" || c20HasTag(f.Tag, "index") || c20HasTag(f.Tag, "uniqueindex") || c20HasTag(f.Tag, "-") {
+				if lost[f.Name] != "" || c20IsRel(f.Kind) || c20Embeds(f.Kind) || f.Kind == "audit" || f.Kind == "stamp" || c20HasTag(f.Tag, "index") || c20HasTag(f.Tag, "uniqueindex") || c20HasTag(f.Tag, "-") {
 					continue
 				}
 				if f.Kind != "bool" && rng.Intn(2) == 0 {
@@ -361,7 +395,7 @@ func c20GenSpec(rng *rand.Rand, tricky bool) c20Spec {
 			for tries := 0; tries < 6; tries++ {
 				i := rng.Intn(len(sp.V1))
 				f := sp.V2[i]
-				if c20IsRel(f.Kind) || f.Kind == "audit" || f.Kind == "stamp" || c20HasTag(f.Tag, "check") || c20HasTag(f.Tag, "-") {
+				if lost[f.Name] != "" || c20IsRel(f.Kind) || c20Embeds(f.Kind) || f.Kind == "audit" || f.Kind == "stamp" || c20HasTag(f.Tag, "check") || c20HasTag(f.Tag, "-") {
 					continue
 				}
 				sp.V2[i].Tag = c20AddTag(f.Tag, g.checkFor(c20Class(f.Kind), c20ColName(f.Name, f.Tag), rng.Intn(2) == 0, f.Name))
@@ -372,7 +406,7 @@ func c20GenSpec(rng *rand.Rand, tricky bool) c20Spec {
 			for tries := 0; tries < 6; tries++ {
 				i := rng.Intn(len(sp.V1))
 				f := sp.V2[i]
-				if c20IsRel(f.Kind) || f.Kind == "audit" || f.Kind == "stamp" || f.Kind == "bool" || c20HasTag(f.Tag, "unique") || c20HasTag(f.Tag, "primarykey") || c20HasTag(f.Tag, "-") || f.Name == "ID" {
+				if lost[f.Name] != "" || c20IsRel(f.Kind) || c20Embeds(f.Kind) || f.Kind == "audit" || f.Kind == "stamp" || f.Kind == "bool" || c20HasTag(f.Tag, "unique") || c20HasTag(f.Tag, "primarykey") || c20HasTag(f.Tag, "-") || f.Name == "ID" {
 					continue
 				}
 				sp.V2[i].Tag = c20AddTag(f.Tag, "unique")
@@ -382,7 +416,7 @@ func c20GenSpec(rng *rand.Rand, tricky bool) c20Spec {
 		case 7, 8: // a constraint / index added to an EXISTING field whose column is renamed (name derivations must agree)
 			var cand []int
 			for i, f := range sp.V1 {
-				if !c20IsRel(f.Kind) && f.Kind != "audit" && f.Kind != "stamp" && f.Kind != "bool" && c20HasTag(f.Tag, "column") && !c20HasTag(f.Tag, "primarykey") && f.Name != "ID" {
+				if lost[f.Name] == "" && !c20IsRel(f.Kind) && !c20Embeds(f.Kind) && f.Kind != "audit" && f.Kind != "stamp" && f.Kind != "bool" && c20HasTag(f.Tag, "column") && !c20HasTag(f.Tag, "primarykey") && f.Name != "ID" {
 					cand = append(cand, i)
 				}
 			}
@@ -474,6 +508,38 @@ func c20GenSpec(rng *rand.Rand, tricky bool) c20Spec {
 	}
 	if sp.Cfg != nil && hasCheck && (sp.Cfg.Naming == "nolower" || sp.Cfg.Naming == "mixed") {
 		sp.Cfg.Naming = "prefix"
+	}
+	// handles that name the table themselves: only for models without relations (c20_cols.go)
+	anyRel := false
+	for _, f := range sp.V2 {
+		anyRel = anyRel || c20IsRel(f.Kind)
+	}
+	if !anyRel && rng.Intn(5) == 0 {
+		c := sp.Cfg.get()
+		c.Handle = []string{"table", "qtable", "scopes"}[rng.Intn(3)]
+		sp.Cfg = &c
+		// (the handle's name is the table name the schema is parsed under; the oracle asks gorm about the model through the plain
+		// handle, so the naming strategy must answer the same bare name)
+		sp.Qual = ""
+	}
+	if sp.Qual != "" && !tricky { // F31: a `unique` that has to be ADDED on a qualified table (listed; probed on its witness)
+		old := map[string]string{}
+		for _, f := range sp.V1 {
+			old[f.Name] = f.Tag
+		}
+		for i, f := range sp.V2 {
+			if t, was := old[f.Name]; c20HasTag(f.Tag, "unique") && (!was || !c20HasTag(t, "unique")) {
+				sp.V2[i].Tag = c20StripTag(f.Tag, c20IsUniquePart)
+			}
+		}
+		var keep []c20Field
+		for _, f := range sp.V2 { // (C20Stamp.Serial is `unique`: an embedded stamp added in v2 is an added unique, too)
+			if _, was := old[f.Name]; f.Kind == "stamp" && !was {
+				continue
+			}
+			keep = append(keep, f)
+		}
+		sp.V2 = keep
 	}
 	if sp.Cfg != nil {
 		g.f("cfg:" + sp.Cfg.String())
